@@ -13,9 +13,9 @@ Full-strength statements and what the pinned code does:
 * `Hermetic` — callers agreeing on the pass_env / pass_unsafe_env names give the same action environment:
   DISPROVED (`C10_witness_home_leak`: `~` in secrets / system tools is expanded with the caller's `$HOME`);
   proved with `HOME` added to the visible names or without secrets/tools (`C10_partial_hermetic`).
-* `Deterministic` — the environment is a function of (config, target, caller): DISPROVED
-  (`C10_witness_userenv_order`: `env` entries referring to each other expand in Go map order);
-  proved for entries without `$` (`C10_partial_userenv`).
+* `Deterministic` — the environment is a function of (config, target, caller): PROVED for today's source
+  (`C10_deterministic`: `withUserProvidedEnv` sorts the keys of `target.Env`, regenerated fact `userEnvSorted`); the
+  repaired defect is kept as `C10_witness_userenv_order_unsorted` / `C10_partial_userenv_unsorted`.
 * a changed `pass_env` value changes the rule hash: proved for one variable (`C10_passenv_rehash_single`), in
   general only up to the unframed `name=value` run (`C10_passenv_rehash`, witness `C10_witness_passenv_unframed`);
   likewise for `[build] passenv` and the config hash (`C10_config_rehash_single`, `C10_witness_config_unframed`).
@@ -26,19 +26,36 @@ open PlzVerif.RuleHash PlzVerif.Env PlzVerif.Generated
 
 abbrev F : Facts := C08.facts
 
+/-- How `withUserProvidedEnv` iterates `target.Env` in today's source. -/
+abbrev US : Bool := C10.userEnvSorted
+
 def HOME : Bytes := [72, 79, 77, 69]
 
 /-- Side condition on the regenerated facts (decidable). -/
 def FactsOK : Bool :=
-  -- the only places where the process environment is read on the way to an action
+  -- EVERY read of the process environment in src/core, src/build, src/fs, src/process (non-test, non-hook files),
+  -- compared with this allowlist.  On the way to an action (modelled): the two pass loops of TargetEnvironment,
+  -- getBuildEnv's LookupEnv, ruleHash's pass_env values, ExpandHomePath's HOME (the known leak).  Reaching an action only
+  -- through configuration *inputs* of the model (`Cfg.path`, `Cfg.location`, which config files are read): setBuildPath
+  -- (PATH, only when PATH is listed in passenv), fs.executable (PATH, to find plz itself -> Please.Location),
+  -- defaultGlobalConfigFiles (XDG_*).  Not on the build path: ExecEnvironment (plz exec), flag completion (PLZ_COMPLETE,
+  -- os.Environ for re-exec).
   C10.envReads == [
     ("src/core/build_env.go", "TargetEnvironment", "os.Getenv", "<var>"),
     ("src/core/build_env.go", "TargetEnvironment", "os.Getenv", "<var>"),
     ("src/core/build_env.go", "ExecEnvironment", "os.Getenv", "\"TERM\""),
+    ("src/core/build_label.go", "BuildLabel.UnmarshalFlag", "os.Getenv", "\"PLZ_COMPLETE\""),
+    ("src/core/build_label.go", "BuildLabel.Complete", "os.Environ", ""),
+    ("src/core/config.go", "defaultGlobalConfigFiles", "os.Getenv", "\"XDG_CONFIG_DIRS\""),
+    ("src/core/config.go", "defaultGlobalConfigFiles", "os.Getenv", "\"XDG_CONFIG_HOME\""),
+    ("src/core/config.go", "setBuildPath", "os.Getenv", "\"PATH\""),
+    ("src/core/config.go", "setBuildPath", "os.Getenv", "\"PATH\""),
     ("src/core/config.go", "Configuration.getBuildEnv", "os.LookupEnv", "<var>"),
-    ("src/fs/home.go", "ExpandHomePath", "os.Getenv", "\"HOME\""),
-    ("src/build/incrementality.go", "ruleHash", "os.Getenv", "<var>")] &&
-  -- a child's environment is only ever extended from the explicitly built list
+    ("src/build/incrementality.go", "ruleHash", "os.Getenv", "<var>"),
+    ("src/fs/executable.go", "executable", "os.Getenv", "\"PATH\""),
+    ("src/fs/home.go", "ExpandHomePath", "os.Getenv", "\"HOME\"")] &&
+  -- (syntactic pins: a *wrong value* written under an existing key, or passed to cmd.Env, flips nothing here and is
+  -- left to the correspondence)  a child's environment is only ever extended from the explicitly built list
   C10.cmdEnvAssignments == [
     "exec_linux.go: cmd.Env = append(cmd.Env, \"SANDBOX_UID=\"+strconv.Itoa(os.Getuid()))",
     "exec_linux.go: cmd.Env = append(cmd.Env, \"SHARE_NETWORK=\"+boolToString(!sandbox.Network), \"SHARE_MOUNT=\"+boolToString(!sandbox.Mount))",
@@ -51,6 +68,8 @@ def FactsOK : Bool :=
     "\"SRCS_\" + strings.ToUpper(name)", "\"OUTS_\" + strings.ToUpper(name)", "\"SECRETS\"",
     "\"SECRETS_\" + strings.ToUpper(name)", "\"SANDBOX_DIRS\"", "\"GENDIR\"", "\"BINDIR\"",
     "prefix + \"TOOLS\"", "prefix + \"TOOL\"", "prefix + \"TOOLS_\" + strings.ToUpper(name)", "k"] &&
+  -- target.Env is applied in sorted key order
+  C10.userEnvSorted &&
   -- pass_env is written exactly once by ruleHash, as name "=" value
   F.passEnvSep == [61] && (match splitAt .passEnv F.items with | some (_, gi, _) => gi.1 == .always | none => false)
 
@@ -62,7 +81,7 @@ theorem C10_facts_ok : FactsOK = true := by decide
 /-- Full strength: the caller can influence the action environment only through the listed names. -/
 def Hermetic : Prop :=
   ∀ (cfg : Cfg) (t : Target) (d : Derived) (c c' : Caller), Agree (visible cfg t) c c' →
-    toSlice (buildEnvironment cfg t d c) = toSlice (buildEnvironment cfg t d c')
+    toSlice (buildEnvironment US cfg t d c) = toSlice (buildEnvironment US cfg t d c')
 
 def tSecret : Target := { label := ⟨[], [112], [116]⟩, secrets := [[126, 47, 115]] }     -- secrets = ["~/s"]
 def tTool : Target := { label := ⟨[], [112], [116]⟩, tools := [[126, 47, 116]] }         -- tools = ["~/t"]
@@ -75,14 +94,18 @@ theorem C10_witness_home_leak : ¬ Hermetic := by
   revert this
   decide
 
-example : toSlice (buildEnvironment {} tTool {} [(HOME, [47, 97])]) ≠ toSlice (buildEnvironment {} tTool {} [(HOME, [47, 98])]) := by
+example : toSlice (buildEnvironment US {} tTool {} [(HOME, [47, 97])]) ≠ toSlice (buildEnvironment US {} tTool {} [(HOME, [47, 98])]) := by
   decide
 
-/-- Hermetic once `HOME` is counted among the visible names, or for targets without secrets and tools. -/
+/-- Hermetic once `HOME` is counted among the visible names, or for targets without secrets and tools.
+    Caveat: `cfg` is an input of the model.  Two of its fields are themselves computed from the caller's environment
+    when the configuration is read — `cfg.location` (`EnsurePleaseLocation`: `~/.please` when plz runs from there,
+    config.go:781-806, hence `$HOME` in every action's `PATH`) and `cfg.path` (from `$PATH` when `PATH` is in passenv) —
+    so "same `cfg`" in this theorem already includes "same Please location". -/
 theorem C10_partial_hermetic (cfg : Cfg) (t : Target) (d : Derived) (c c' : Caller) (h : Agree (visible cfg t) c c')
     (hh : (t.secrets = [] ∧ t.namedSecrets = [] ∧ t.tools = [] ∧ t.namedTools = []) ∨ getenv c HOME = getenv c' HOME) :
-    buildEnvironment cfg t d c = buildEnvironment cfg t d c' :=
-  buildEnvironment_agree cfg t d h hh
+    buildEnvironment US cfg t d c = buildEnvironment US cfg t d c' :=
+  buildEnvironment_agree US cfg t d h hh
 
 example : Agree (visible {} ({ passEnv := some [[65]] } : Target)) [([65], [120]), ([66], [49])] [([65], [120]), ([66], [50])] := by
   intro k hk
@@ -92,26 +115,41 @@ example : Agree (visible {} ({ passEnv := some [[65]] } : Target)) [([65], [120]
 
 /-! ### determinism -/
 
-/-- Full strength: the environment does not depend on the iteration order of `target.Env`. -/
-def Deterministic : Prop :=
-  ∀ (cfg : Cfg) (t : Target) (d : Derived) (c : Caller) (e' : List (Bytes × Bytes)), e'.Perm t.env →
-    toSlice (buildEnvironment cfg t d c) = toSlice (buildEnvironment cfg { t with env := e' } d c)
+/-- Full strength: the environment does not depend on the iteration order of the Go map `target.Env`
+    (`sorted`: how `withUserProvidedEnv` iterates it). -/
+def Deterministic (sorted : Bool) : Prop :=
+  ∀ (cfg : Cfg) (t : Target) (d : Derived) (c : Caller) (e' : List (Bytes × Bytes)), KeysNodup t.env → e'.Perm t.env →
+    buildEnvironment sorted cfg t d c = buildEnvironment sorted cfg { t with env := e' } d c
+
+theorem userEnvSorted : C10.userEnvSorted = true := by
+  have := C10_facts_ok
+  simp only [FactsOK, Bool.and_eq_true] at this
+  exact this.1.1.2
+
+/-- For the code as it is now (keys of `target.Env` sorted before use, fix 13a77d9): the action environment is a
+    function of configuration, target and caller. -/
+theorem C10_deterministic : Deterministic US := by
+  intro cfg t d c e' hn p
+  have hs : US = true := userEnvSorted
+  simp only [buildEnvironment, hs, preUserEnv_env]
+  exact (withUserEnv_sorted_perm p hn _).symm
 
 def tEnv : Target := { label := ⟨[], [112], [116]⟩, env := [([65], [120]), ([66], [36, 65])] }   -- env = {"A": "x", "B": "$A"}
 
-/-- `env = {"A": "x", "B": "$A"}`: `withUserProvidedEnv` ranges over the Go map, so `B` is `x` or `$A`
-    depending on the iteration order (build_env.go:145-158). -/
-theorem C10_witness_userenv_order : ¬ Deterministic := by
+example : KeysNodup tEnv.env := by decide
+
+/-- The repaired defect, as a theorem about the old fact value: ranging over the Go map directly,
+    `env = {"A": "x", "B": "$A"}` gave `B=x` or `B=$A` depending on the iteration order. -/
+theorem C10_witness_userenv_order_unsorted : ¬ Deterministic false := by
   intro h
-  have := h {} tEnv {} [] [([66], [36, 65]), ([65], [120])] (List.Perm.swap _ _ _)
+  have := h {} tEnv {} [] [([66], [36, 65]), ([65], [120])] (by decide) (List.Perm.swap _ _ _)
   revert this
   decide
 
-/-- Where it is deterministic: entries without `$` (distinct keys, as in any Go map) give, read as a map, the
-    same environment whatever the iteration order. -/
-theorem C10_partial_userenv (l l' : List (Bytes × Bytes)) (p : l'.Perm l) (hn : KeysNodup l)
+/-- Even unsorted it was deterministic, read as a map, for entries without `$`. -/
+theorem C10_partial_userenv_unsorted (l l' : List (Bytes × Bytes)) (p : l'.Perm l) (hn : KeysNodup l)
     (hd : ∀ kv ∈ l, kv.2.contains 36 = false) (env : Env) (k : Bytes) :
-    (withUserEnv l' env).get? k = (withUserEnv l env).get? k :=
+    (withUserEnv false l' env).get? k = (withUserEnv false l env).get? k :=
   withUserEnv_perm_lookup p hn hd env k
 
 example : KeysNodup [(([65] : Bytes), ([120] : Bytes)), ([66], [121])] ∧
@@ -185,8 +223,8 @@ def tAB : Target := { label := ⟨[], [112], [116]⟩, passEnv := some [A, B] }
     the same (no rebuild). Same root cause as C08's unframed writes. -/
 theorem C10_witness_passenv_unframed :
     ruleSer F { environ := [(A, [120, 66, 61, 121]), (B, [])] } tAB = ruleSer F { environ := [(A, [120]), (B, [121, 66, 61])] } tAB ∧
-    toSlice (buildEnvironment {} tAB {} [(A, [120, 66, 61, 121]), (B, [])]) ≠
-      toSlice (buildEnvironment {} tAB {} [(A, [120]), (B, [121, 66, 61])]) := by decide
+    toSlice (buildEnvironment US {} tAB {} [(A, [120, 66, 61, 121]), (B, [])]) ≠
+      toSlice (buildEnvironment US {} tAB {} [(A, [120]), (B, [121, 66, 61])]) := by decide
 
 /-- The same ambiguity in `Configuration.Hash` for `[build] passenv = A B`. -/
 theorem C10_witness_config_unframed :
@@ -205,5 +243,16 @@ theorem C10_config_rehash_single (cfg : Cfg) (c c' : Caller) (x v v' : Bytes) (h
   exact List.append_cancel_left (List.append_cancel_left e)
 
 example : Env.hasPrefix A [83, 69, 67, 82, 69, 84] = false ∧ A ≠ pathKey := by decide
+
+/-- … and setting a variable that was unset (whatever its value, even empty) changes the config hash too. -/
+theorem C10_config_rehash_set_unset (cfg : Cfg) (c c' : Caller) (x v : Bytes) (hp : cfg.passEnv = [x]) (hb : cfg.buildEnv = [])
+    (hx : x ≠ pathKey) (hs : Env.hasPrefix x [83, 69, 67, 82, 69, 84] = false)
+    (hv : lookup x c = some v) (hv' : lookup x c' = none) : configSer cfg c ≠ configSer cfg c' := by
+  intro e
+  simp only [configSer, getBuildEnv, addEnv, hp, hb, List.foldl_cons, List.foldl_nil, hv, hv', hx, if_false,
+    Bool.false_eq_true, Env.set, isort, List.foldr_cons, List.foldr_nil, insertBy, List.filter_cons, hs, Bool.not_false,
+    if_true, List.filter_nil, List.flatMap_cons, List.flatMap_nil, List.append_nil] at e
+  have := congrArg List.length e
+  simp at this
 
 end PlzVerif.Props.C10
